@@ -81,11 +81,24 @@ FillIn(idx, ty, st, e) ==
   IN IF cur.k = "any" THEN st
      ELSE [st EXCEPT !.val = SetVal(idx, ty, st.val, e.f, [k |-> "msg", m |-> [inner EXCEPT ![e.x] = nv]])]
 
+\* the same two levels down:  m.<f>.<g>.<x>.append(v)
+FillPath(idx, ty, st, e) ==
+  LET f == idx[ty].byname[e.f]
+      cur == st.val[e.f]
+      inner == IF cur.k = "msg" THEN cur.m ELSE NormMsg(idx[f.msg].fresh)
+      g == idx[f.msg].byname[e.g]
+      cur2 == inner[e.g]
+      inner2 == IF cur2.k = "msg" THEN cur2.m ELSE NormMsg(idx[g.msg].fresh)
+      nv == [k |-> "list", xs |-> Append(inner2[e.x].xs, Norm(e.v))]
+      mid == SetVal(idx, f.msg, inner, e.g, [k |-> "msg", m |-> [inner2 EXCEPT ![e.x] = nv]])
+  IN IF cur.k = "any" \/ cur2.k = "any" THEN st
+     ELSE [st EXCEPT !.val = SetVal(idx, ty, st.val, e.f, [k |-> "msg", m |-> mid])]
+
 \* whether these conversions succeed on every value is the subject of C04/C05/C09 (JSON) -- here only their purity is judged
 Tolerated == {"todict", "tojson", "topydict", "repr"}
 Rejected == {"parse_bad", "fromdict_bad", "frompydict_bad"}
 IsPrefixSeq(a, b) == Len(a) <= Len(b) /\ SubSeq(b, 1, Len(a)) = a
-Observers == {"eqother", "get", "getin", "bytes", "len", "bool", "repr", "todict", "tojson", "topydict", "eqself", "observe", "mutcopy"}
+Observers == {"eqother", "eqwith", "get", "getin", "bytes", "len", "bool", "repr", "todict", "tojson", "topydict", "eqself", "observe", "mutcopy"}
 Copiers == {"copy", "deepcopy", "pickle"}
 
 \* expected effect of one logged operation on the abstract state
@@ -105,6 +118,7 @@ Effect(idx, ty, st, e) ==
     \* ... and of a container inside a sub-message:  m.<f>.<x>.append(v)  /  m.<f>.<x>[key] = v   (nothing passes through a
     \* __setattr__; the sub-message now has content, so it is part of the value like one that was assigned to)
     [] e.op \in {"appendin", "mapsetin"} -> FillIn(idx, ty, st, e)
+    [] e.op = "fillpath" -> FillPath(idx, ty, st, e)
     [] e.op = "mapset" -> LET nk == Norm(e.key)  nv == Norm(e.v)  old == st.val[e.f].f IN
                           [st EXCEPT !.val[e.f] = [k |-> "map", f |-> [x \in (DOMAIN old) \cup {nk} |-> IF x = nk THEN nv ELSE old[x]]]]
     \* an operation that was *rejected* (malformed bytes / an invalid document given to a live object; the caller caught the
@@ -180,7 +194,7 @@ Judge(idx, ty, st, e, want, judgeLen) ==
          THEN Fail(st, "is_set_of_optional_field_after_" \o e.op,
                    { n \in DOMAIN st.val : idx[ty].byname[n].card = "optional" /\ n \in DOMAIN o.isset /\ o.isset[n] # Readable(st, n) })
     ELSE IF "rteq" \in DOMAIN o /\ ~o.rteq /\ ~MsgHasNaN(ov) THEN Fail(st, "not_equal_to_its_own_reparsed_encoding_after_" \o e.op, "")
-    ELSE IF e.op = "eqother" /\ ~e.samebytes THEN Fail(st, "comparison_changed_the_other_operand", "")
+    ELSE IF e.op \in {"eqother", "eqwith"} /\ ~e.samebytes THEN Fail(st, "comparison_changed_the_other_operand", "")
     ELSE IF e.op = "eqother" /\ ~e.eq /\ ~MsgHasNaN(ov) THEN Fail(st, "comparison_with_a_message_differing_in_one_map_key", "")
     ELSE IF e.op \in Copiers /\ ~e.eq THEN Fail(st, e.op \o "_not_equal_to_original", "")
     ELSE IF e.op \in Copiers /\ ~e.samebytes THEN Fail(st, e.op \o "_bytes_differ_from_original", "")
